@@ -55,6 +55,35 @@ register('C15', 'p_top', 'c15',
          'a disagreement between implementation and model on a readable chain is therefore a violation of the specification.',
          ORACLE + ['kernel: st_dev identifies a filesystem; os.path.relpath is lexical (start paths are canonical)'])
 
+TREE_RULE = ('random consistent trees (0-4 dirs, 0-9 files, hostile names, hidden files, 1-4 Manifests incl. several per directory and all five '
+             'storage formats, duplicate/compatible/conflicting entries, IGNORE incl. look-alikes, DIST/TIMESTAMP) built without gemato, then ')
+register('C01', 'p_tree', 'c01',
+         TREE_RULE + '0-3 mutations out of 19 kinds (content same/other size, delete, stray, hidden stray, file<->dir, fifo, socket, mtime, Manifest byte/'
+         'delete/garbage, dangling/looping link, directory and file symlinks, directory on another device); ops: verify of every sub-path with '
+         'every handler policy and last_mtime in {none, older, equal, newer}, find_path_entry, verify_path, assert_path_verifies, find_dist_entry; '
+         'pinned scandir orders; non-trivial = distinct (files, manifests, mutations, ops)',
+         'Theorems in Properties/C01.v (per-entry soundness, stray rule, IGNORE, aggregation, component-wise IGNORE matching); the whole-tree '
+         'behaviour is tied to /repo by running both on the same abstract tree realised on two devices.',
+         ORACLE + ['kernel: the scratch tree behaves like the inode-graph model (stat/open/fstat/scandir/read); /dev/shm is a second device'])
+register('C02', 'p_tree', 'c02',
+         'Manifest chains of depth 1-5, every storage format per level, optionally two Manifests in one directory; the attacker changes / adds / removes '
+         'a file and recomputes every Manifest from the bottom up to level k (every k), the Manifest above is untouched; APIs: whole and sub-directory '
+         'verification, verify_path, assert_path_verifies, find_path_entry, find_dist_entry; non-trivial = distinct (depth, formats, tamper, k, API)',
+         'Theorems in Properties/C02.v (chain invariant over loading rounds); every tampering must end in a mismatch for the level-k Manifest.',
+         ORACLE)
+register('C06', 'p_tree', 'c06',
+         TREE_RULE + 'one persistent injected OSError (EACCES, EPERM, EIO, ENOMEM, ELOOP, ENOTDIR, EMFILE, ESTALE) on one primitive (open, stat, fstat, '
+         'scandir, read) of one object (file, directory, Manifest, stray); verification of a sub-path with throwing or keep-going handler, with and '
+         'without last_mtime; non-trivial = distinct (tree, fault, op)',
+         'Theorems in Properties/C06.v (per-primitive error propagation); the fault is injected into the real os.* / open() calls in-process and into the model.',
+         ORACLE + ['faults are persistent for the run and keyed by (st_dev, st_ino)'])
+register('C07', 'p_tree', 'c07',
+         TREE_RULE + '2-6 simultaneous mutations; keep-going policies {always False, always True, always None, by path parity}; every sub-path; '
+         'the complete handler call log (paths and difference names, in order) is compared; plus gemato verify --keep-going exit status; '
+         'non-trivial = distinct case',
+         'Theorems in Properties/C07.v (result = conjunction of all handler verdicts of the whole scan).',
+         ORACLE)
+
 # ---- MANIFEST metadata per claimed property ------------------------------------------------
 NOT_APPLICABLE = {}
 META = {
@@ -96,6 +125,31 @@ META = {
               'only tried when allowed; path_starts_with is component-wise (theorem about the translated util.py).',
    level_note='About Model/FindTop.v over the translated util.path_starts_with and generated name tables; start paths are assumed canonical (relpath is lexical); '
               'error levels (unreadable Manifests) are covered by correspondence only.'),
+ 'C01': dict(engine='coq+tree', design_ref='DESIGN.md section 5 C01',
+   technique='Coq proofs about the per-file decision and the aggregation + differential runs of whole-tree verification on realised inode graphs',
+   level_text='Proved in Coq for all inputs: a file entry verifies only if the object is a regular file of matching size whose content has every listed checksum '
+              '(or is not newer than last_mtime with unchanged size); a stray object is a mismatch; IGNORE verifies; IGNORE matching is component-wise; the '
+              'directory verdict is the conjunction of all per-path verdicts. PARTIAL: that the walk presents exactly the non-hidden, non-IGNOREd files is '
+              'covered by the correspondence of whole-tree runs (model vs /repo) only.',
+   level_note='About Model/{FS,Verify,Loader}.v; filesystem, hashlib and codecs are oracles; the model is the reference for verdict disagreements.'),
+ 'C02': dict(engine='coq+tree', design_ref='DESIGN.md section 5 C02',
+   technique='Coq invariant proof over Manifest loading rounds + differential tamper matrix on realised trees',
+   level_text='Proved in Coq for any nesting depth and any number of loading rounds: every loaded Manifest other than the top-level one is named by a MANIFEST entry '
+              'of the file of a loaded Manifest and its stored bytes matched that entry (size + every listed checksum) before it was parsed; a non-matching '
+              'sub-Manifest is never loaded. That every API consults only loaded Manifests is by construction of the model and checked by the tamper matrix.',
+   level_note='About Model/Loader.v; "always detected" means: differs in size or a listed digest (no hash assumption).'),
+ 'C06': dict(engine='coq+tree', design_ref='DESIGN.md section 5 C06',
+   technique='Coq proofs of per-primitive error propagation + fault injection into the real os calls compared with the model',
+   level_text='Proved in Coq: every failure of open / fstat / read on a listed or stray object is the result of verify_path (never success, never "absent"; '
+              'only ENOENT means absent, only ENXIO/EOPNOTSUPP mean "exists, not opened"); the same for update_entry_for_path. PARTIAL: propagation through the '
+              'directory walk and Manifest loading is the error monad of the model, validated by persistent fault injection; "update has written nothing" is checked in C10.',
+   level_note='Faults are persistent per (primitive, inode); transient faults are not modelled.'),
+ 'C07': dict(engine='coq+tree', design_ref='DESIGN.md section 5 C07',
+   technique='Coq induction over the walk (log only grows, result is the conjunction of all verdicts) + complete call-log comparison',
+   level_text='Proved in Coq for trees of any size: the result of keep-going verification is False iff some handler invocation of the whole scan (including the trailing '
+              'missing-directory pass) returned False; no invocation is dropped or short-circuited. PARTIAL: "exactly once per offending path" is compared on '
+              'generated trees (complete ordered call log, model vs /repo).',
+   level_note='About Model/Loader.v walk_verify/verify_dir; the lazy-all() defect D1 was repaired in /repo (fix commit) and the model has no laziness.'),
  'C09': dict(engine='coq+text', design_ref='DESIGN.md section 5 C09',
    technique='Coq theorems (totality of the parser result type by induction over lines; per-class rejection lemmas) + differential runs',
    level_text='Proved in Coq for every text: load returns entries, ManifestSyntaxError or ManifestUnsignedData and nothing else; accepted entries '
